@@ -148,6 +148,16 @@ CHECKS = {
             'PathAccessErrors by C01 and are not fault sites here; StopIteration crossing a generator frame is Python\'s '
             'PEP 479 and excluded. Bounds: nesting depth <= 4, re-entrancy depth <= 3.',
             'DESIGN.md section 4 / C04'),
+    'C07': ('Hypothesis-generated placements of binders and readers over chains and branching containers vs a static '
+            'environment calculus transcribed from the statement; each spec evaluated twice, with and without a caller scope; '
+            'Match-dict key bindings over several entries; Ref nearest-enclosing resolution on recursive tree specs',
+            'Generated-input differential testing: what every reader sees (two names, unique values, so shadowing and leaks '
+            'are observable), which Coalesce/Or/Switch branch ran, globals / Vars contents read before they are written on '
+            'the second evaluation (nothing may outlive a call), caller mapping unchanged, a Match-dict key passes its '
+            'bindings to its own value only, sibling Ref definitions do not capture.',
+            'Trusted: ev() in vf/props/c07.py. Spec(scope=) and Ref definitions as chain steps are wrapped in a 1-tuple '
+            '(their visibility to later steps is not asserted). Bounds: depth <= 4, <= 3 children, names k, j, v.',
+            'DESIGN.md section 4 / C07'),
 }
 
 NOT_YET = 'check not built yet in this session (design in DESIGN.md section 4); will be claimed once its check is quiet on the unchanged tree'
